@@ -573,7 +573,7 @@ def run(tier):
     cases.sort(key=lambda c: json.dumps(c["ch"], sort_keys=True))
     from .. import realenv  # noqa: F401  (silences the runtime's logging, imports the package once)
     nvalid = sum(1 for c in cases if c["verdict"] == "compiled")
-    runner = Runner(chk, graph_every=max(1, nvalid // (150 if tier == "quick" else 300)))
+    runner = Runner(chk, graph_every=max(1, nvalid // (100 if tier == "quick" else 300)))
     for case in cases:
         runner.run_case(case)
     keys = {}
